@@ -232,7 +232,12 @@ def check_case(gene, m, form, recs, a, b, s):
         k = 0  # records of any other shape are ignored
     kd = kind_of(m)
     got = cov.coverage(m)
-    if got != 10 * k:
+    if got != 10 * k and not (got == 0 and form in ("plain", "adjacent")):
+        # the recorded findings are "no support at all" for insertions / multi-nucleotide
+        # substitutions in their standard spelling; any other wrong value is new
+        probs.append(("support", f"vcf-support-new-{kd}-{form}",
+                      f"{m} written as {recs} with GT {gt}: support {got}, expected {10 * k}"))
+    elif got != 10 * k:
         probs.append(("support", f"vcf-support-{kd}" + ("-adjacent" if form == "adjacent"
                                                          else "-refmismatch"
                                                          if form == "refmismatch" else
